@@ -48,6 +48,7 @@ def required(tier):
             'rule:create:identified-into-unidentified', 'rule:append:identified-into-unidentified',
             'rule:append:unidentified-into-identified', 'rule:lookup-on-unidentified-refused',
             'in-memory:lookup', 'in-memory:saved-then-lookup', 'in-memory:closed',
+            'in-memory:sync-before-save',
         ],
         'counters': {'lookups_while_stale': 20, 'lookups_in_append': 20,
                      'merged_seam_lookups': 10},
@@ -201,14 +202,24 @@ def in_memory_lookups(rng, workdir, rec, k):
             h.op_lookup(known=True)
         h.op_lookup(known=False)
         rec.cls('in-memory:lookup')
-        if rng.random() < 0.6:
+        if rng.random() < 0.75:
+            if rng.random() < 0.5:
+                h.op_sync()                 # sync of a store that is not on disk yet
+                rec.cls('in-memory:sync-before-save')
             h.op_save()
             h.op_add()
             h.op_lookup(known=True)
             h.op_lookup(known=False)
             rec.cls('in-memory:saved-then-lookup')
+        saved = h.session == 'create_file'
         h.close()
         rec.cls('in-memory:closed')
+        if saved:
+            h.open_session('read')
+            for _ in range(min(4, len(h.model))):
+                h.op_lookup(known=True)
+            h.op_lookup(known=False)
+            h.close()
     finally:
         h.cleanup()
     return h
